@@ -15,7 +15,7 @@ import (
 	"github.com/gardenbed/emerge/verif/ref/ebnfref"
 )
 
-var handlePool = []string{`"+"`, `"*"`, `TK`, `< e = e e >`, `< e = e ( a | b ) e >`, `< e = a | b >`, `< e = [ a ] e | >`, `< f = { a } >`, `< f = >`, `< e = "-" e >`, `< f = a TK | "/" >`}
+var handlePool = []string{`"+"`, `"*"`, `TK`, `< e = e e >`, `< e = e ( a | b ) e >`, `< e = a | b >`, `< e = [ a ] e | >`, `< f = { a } >`, `< f = >`, `< e = "-" e >`, `< f = a TK | "/" >`, `< e = a >`, `< e = a | a | b | >`}
 
 const prelude = "TK = \"t\" ;\nstart = e f ;\ne = \"x\" ;\nf = \"y\" ;\na = \"p\" ;\nb = \"q\" ;\n"
 
@@ -82,19 +82,33 @@ func checkText(r *ev.Run, text string) {
 	seenHandle := map[string]int{}
 	for i, w := range want {
 		for _, h := range w.Handles {
-			key := ""
+			// a rule handle stands for one production per top-level alternative: two rule handles overlap when they
+			// share an alternative (`< e = a | b >` and `< e = a >`)
+			var keys []string
 			if h.Rule != nil {
-				key = "<" + h.Rule.LHS + "=>"
-				if h.Rule.RHS != nil {
-					key = "<" + h.Rule.LHS + "=" + ebnfref.ExprString(h.Rule.RHS) + ">"
+				alts := []ebnfref.Expr{h.Rule.RHS}
+				if a, ok := h.Rule.RHS.(*ebnfref.Alt); ok {
+					alts = a.Ops
+					if a.TrailingEmpty {
+						alts = append(append([]ebnfref.Expr{}, alts...), nil)
+					}
+				}
+				for _, a := range alts {
+					k := "<" + h.Rule.LHS + "=>"
+					if a != nil {
+						k = "<" + h.Rule.LHS + "=" + ebnfref.ExprString(a) + ">"
+					}
+					keys = append(keys, k)
 				}
 			} else {
-				key = ebnfref.TermName(h.Term)
+				keys = []string{ebnfref.TermName(h.Term)}
 			}
-			if j, ok := seenHandle[key]; ok && j != i {
-				repeated = true
+			for _, key := range keys {
+				if j, ok := seenHandle[key]; ok && j != i {
+					repeated = true
+				}
+				seenHandle[key] = i
 			}
-			seenHandle[key] = i
 		}
 	}
 	if !res.OK() {
